@@ -816,7 +816,9 @@ class MapAdapter:
                 if build_rv is not None:
                     rv = (build_rv[0], build_rv[1], rule.websocket)
                     if self.map.host_matching:
-                        if rv[0] == self.server_name:
+                        # An alias is only a fallback, it must not shadow the
+                        # canonical rule of another host.
+                        if rv[0] == self.server_name and not rule.alias:
                             return rv
                         elif first_match is None:
                             first_match = rv
